@@ -43,6 +43,7 @@ struct CallCtx {
   Obs* obs = nullptr;
   int action_idx = 0;
   bool fault_fired = false;
+  bool ok_nested_done = false;   // the operations attached at position -1 (performed by the OK reporter) have run
 };
 
 struct scope_abort {};   // thrown by the 'unwind' operation through the frames that own scoped expectations
@@ -84,6 +85,7 @@ class ExecImpl : public ClauseSink {
   std::vector<std::unique_ptr<trompeloeil::sequence>> moved_from_seqs;   // sources of move assignments, not yet destroyed
   void bury_moved_from_seqs();
   bool in_reporter_op = false;
+  void on_ok();
   std::vector<trompeloeil::deathwatched<Plain>*> rwatched;
   std::vector<trompeloeil::deathwatched<MockT<false>>*> rwatched_mock;   // same index; set when the watched object is a mock (it is owned through rmocks)
   void watched_death_model(int wid, std::vector<XRep>& want);
